@@ -387,7 +387,12 @@ func (t *Value) Collect() {
 	// It is kept as a streaming average / dev processus for the moment (not the most
 	// optimized).
 	// streaming dev algo taken from http://www.johndcook.com/blog/standard_deviation/
+	// Collect can be called several times (String, WriteValues, ...): always
+	// start from scratch so that stored values are not counted twice.
+	t.n = 0
 	t.sum = 0
+	t.min, t.max = 0, 0
+	t.oldM, t.newM, t.oldS, t.newS, t.dev = 0, 0, 0, 0, 0
 	for _, newTime := range t.store {
 		// nothings takes 0 ms to complete, so we know it's the first time
 		if t.min > newTime || t.n == 0 {
